@@ -172,6 +172,7 @@ func runC13(t *testing.T, c *choice.Stream, r *Result, opt RunOpt) {
 		// The caller may give up just as a handshake fails for a reason of its own:
 		// whoever cleans up must not leave the other's part undone.
 		lateDone := c.Bool("ctx.late", 1, 2)
+		farCtx := c.Bool("ctx.far", 1, 2)
 		lateCancel := !success && c.Bool("late.cancel", 1, 3)
 		lateCancelStep := c.Draw("late.cancel.step", 500)
 		var lateCancelFn context.CancelFunc
@@ -197,6 +198,14 @@ func runC13(t *testing.T, c *choice.Stream, r *Result, opt RunOpt) {
 					ctx, cancel = context.WithTimeout(ctx, ctxDeadline)
 				}
 				defer cancel()
+			}
+			if ctxDeadline == 0 && farCtx {
+				// a caller with a deadline of its own, far beyond the handshake
+				// timeout: the earlier of the two still applies
+				var cancel context.CancelFunc
+				ctx, cancel = context.WithTimeout(ctx, 3*effHT+time.Hour)
+				defer cancel()
+				r.Fire("caller_deadline_beyond_handshake_timeout")
 			}
 			if lateCancel {
 				var cancel context.CancelFunc
